@@ -28,6 +28,12 @@ def run(ctx):
                 op["h"] = f
             ops.append(op)
         scs.append({"seed": i, "profile": "c07-inplace", "root": "root", "tree": gen.tree_dict(fs), "ops": ops})
+    # patterns with a slash are read relative to the folder the command was given, also below nested histories
+    for pats in (["reel/scratch.txt"], ["/reel/sub/take.mov", "reel/sub/x*"], ["sub/take.mov"], ["reel/sub"]):
+        tree = {"reel/scratch.txt": "s", "reel/keep.txt": "k", "reel/sub/take.mov": "t", "reel/sub/x1.txt": "x", "sub/take.mov": "other", "top.txt": "top"}
+        ops = [{"op": "create", "at": "reel", "h": ["md5"], "now": "2026-03-01 12:00:01"}, {"op": "create", "at": "", "h": ["md5", "c4"], "now": "2026-03-01 12:00:02", "i": pats},
+               {"op": "create", "at": "", "h": ["md5"], "now": "2026-03-01 12:00:03"}, {"op": "verifydh", "at": "", "co": True}, {"op": "verifydh", "at": ""}, {"op": "verify", "at": ""}]
+        scs.insert(0, {"profile": "c07-slash-patterns", "root": "root", "tree": tree, "ops": ops})
     # entries that the history's own patterns (or -i on the verify command line) exclude do not contribute
     for i in range(ctx.scale(12, 150)):
         fs = gen.FsSim()
